@@ -305,12 +305,9 @@ class TD3(RLAlgorithm):
             isinstance(net, EvolvableNetwork)
             for net in [self.actor, self.critic_1, self.critic_2]
         ):
+            share_encoder_parameters(self.actor, self.critic_1, self.critic_2)
             share_encoder_parameters(
-                self.actor,
-                self.critic_1,
-                self.critic_2,
-                self.critic_target_1,
-                self.critic_target_2,
+                self.actor_target, self.critic_target_1, self.critic_target_2
             )
         else:
             warnings.warn(
